@@ -53,22 +53,114 @@ FLOAT3 = ['pos', 'f3']
 
 # ----------------------------------------------------------------------------- helpers (harness side)
 
-def to_arg(values, kind, tshape, aslist):
-    """argument for the code under test: nested Python list or a fresh ndarray of the model dtype"""
-    if aslist and kind != 's' and len(values) > 0:
+# Forms in which a value is handed to the code under test (case field 'aslist'; False/True are the two original forms):
+#   0 fresh C-contiguous ndarray of the model dtype      1 nested Python list
+#   2 non-contiguous ndarray (strided view / Fortran order)   3 read-only ndarray
+#   4 tuple of rows                                      5 integer-typed: whole-number floats as int64, ints as int32
+#   6 numpy scalars (a list of numpy scalars / of row arrays for a full value)
+# All forms are array_like with the same values, so the model is the same for every form.  Form 5 needs whole-number float
+# values (Src(whole=True)) and a float property that already exists (a *new* property rightly takes the dtype it is given);
+# form 3 is kept away from the routes documented as storing the array itself (attribute/view set of a new key, Atoms()
+# constructor of the object under test), where a read-only argument legitimately makes a read-only property.
+AF_LABEL = {2: 'af:noncontig', 3: 'af:readonly', 4: 'af:tuple', 5: 'af:int', 6: 'af:npscalar'}
+NPSCALAR = {'t': np.int64, 'i': np.int64, 'f': np.float64, 'b': np.bool_}
+
+
+def noncontig(arr):
+    """an array equal to arr that is not C-contiguous (where the shape allows one)"""
+    if arr.ndim >= 2 and arr.shape[0] % 2 == 0:
+        return np.asfortranarray(arr)
+    if arr.ndim == 0:
+        return arr
+    base = np.repeat(arr, 2, axis=0)
+    return base[::2]
+
+
+def to_arg(values, kind, tshape, aslist, used=None):
+    """argument for the code under test: see the table of forms above; used (a set) receives the label of the form taken"""
+    af = int(aslist)
+    arr = M.to_array(values, kind, tshape)
+    if len(values) == 0:
+        return arr
+    if af in (1, 4, 6) and kind == 's':
+        return arr
+    if af == 1:
         return [M.tolist(v) for v in values]
-    return M.to_array(values, kind, tshape)
+    if af == 4:
+        if used is not None:
+            used.add(AF_LABEL[4])
+        return tuple(M.tolist(v) for v in values)
+    if af == 6:
+        if used is not None:
+            used.add(AF_LABEL[6])
+        if tshape == ():
+            return [NPSCALAR[kind](v) for v in values]
+        return [np.array(M.tolist(v), dtype=M.DT[kind]) for v in values]
+    if af == 2:
+        out = noncontig(arr)
+        if used is not None and not out.flags.c_contiguous:
+            used.add(AF_LABEL[2])
+        return out
+    if af == 3:
+        arr.setflags(write=False)
+        if used is not None:
+            used.add(AF_LABEL[3])
+        return arr
+    if af == 5:
+        if kind == 'f' and bool(np.all(arr == np.floor(arr))):
+            if used is not None:
+                used.add(AF_LABEL[5])
+            return arr.astype(np.int64)
+        if kind in 'ti':
+            if used is not None:
+                used.add(AF_LABEL[5])
+            return arr.astype(np.int32)
+    return arr
 
 
-def one_arg(v, kind, tshape, aslist, new=False):
-    """a single per-atom value: Python scalar / nested list, or ndarray of shape tshape"""
+def one_arg(v, kind, tshape, aslist, new=False, used=None):
+    """a single per-atom value: Python scalar / nested list, or ndarray of shape tshape (forms as in to_arg)"""
+    af = int(aslist)
+    if af == 5 and new:
+        af = 0
     if kind == 's':
-        if new or not aslist:
-            return np.array(M.tolist(v), dtype='<U4')
+        if new or af not in (1, 4):
+            out = np.array(M.tolist(v), dtype='<U4')
+            if af == 3:
+                out.setflags(write=False)
+            return out
         return M.tolist(v)
-    if aslist:
+    if af == 1:
         return M.tolist(v)
-    return np.array(M.tolist(v), dtype=M.DT[kind])
+    if af == 4:
+        if tshape != () and used is not None:
+            used.add(AF_LABEL[4])
+        return tuple(M.tolist(v)) if tshape != () else v
+    if af == 6 and tshape == ():
+        if used is not None:
+            used.add(AF_LABEL[6])
+        return NPSCALAR[kind](v)
+    arr = np.array(M.tolist(v), dtype=M.DT[kind])
+    if af == 2 and tshape != ():
+        out = noncontig(arr)
+        if used is not None and not out.flags.c_contiguous:
+            used.add(AF_LABEL[2])
+        return out
+    if af == 3:
+        arr.setflags(write=False)
+        if used is not None:
+            used.add(AF_LABEL[3])
+        return arr
+    if af == 5:
+        if kind == 'f' and bool(np.all(arr == np.floor(arr))):
+            if used is not None:
+                used.add(AF_LABEL[5])
+            return int(v) if tshape == () else arr.astype(np.int64)
+        if kind in 'ti':
+            if used is not None:
+                used.add(AF_LABEL[5])
+            return arr.astype(np.int32)
+    return arr
 
 
 def index_obj(form, obj, as_np):
@@ -224,7 +316,7 @@ class Run:
             for r, v in zip(rows, vals):
                 r[name] = v
             schema[name] = (kind, tshape)
-            kw[name] = to_arg(vals, kind, tshape, aslist)
+            kw[name] = self.to_arg(vals, kind, tshape, aslist)
         if reverse:
             kw = OrderedDict(reversed(list(kw.items())))
         if via_prop:
@@ -370,20 +462,20 @@ class Run:
         n = m.n
         src = M.Src(op['vals'], tmax=op['tmax'])
         mode = op['mode']
-        aslist = bool(op['aslist'])
+        aslist = op['aslist']
         if mode == 'scalar' and tshape != ():
             mode = 'len1'
         if mode == 'scalar':
             v = src.one(kind, ())
-            arg = one_arg(v, kind, (), aslist, new=True)
+            arg = self.one_arg(v, kind, (), aslist, new=True)
             values = [v] * n
         elif mode == 'len1':
             v = src.one(kind, tshape)
-            arg = to_arg([v], kind, tshape, aslist)
+            arg = self.to_arg([v], kind, tshape, aslist)
             values = [v] * n
         else:
             values = src.many(kind, tshape, n)
-            arg = to_arg(values, kind, tshape, aslist)
+            arg = self.to_arg(values, kind, tshape, aslist)
         via = op['via']
         self.labels.add('set:' + mode)
         self.labels.add('set_new' if new else 'set_overwrite')
@@ -436,14 +528,14 @@ class Run:
         if form == 'all':
             idx = slice(None)
         src = M.Src(op['vals'], tmax=op['tmax'])
-        aslist = bool(op['aslist'])
+        aslist = op['aslist']
         if form == 'int' or op['vmode'] == 'one':
             v = src.one(kind, tshape)
-            arg = one_arg(v, kind, tshape, aslist)
+            arg = self.one_arg(v, kind, tshape, aslist)
             values = [v]
         else:
             values = src.many(kind, tshape, len(sel))
-            arg = to_arg(values, kind, tshape, aslist)
+            arg = self.to_arg(values, kind, tshape, aslist)
         if via == 'prop':
             atoms.prop(key=name, index=idx, value=arg)
         elif via == 'sysprop':
@@ -466,7 +558,7 @@ class Run:
         if form == 'all':
             mode = 'full' if op['vmode'] == 'many' else 'len1'
             rel = src.many('f', (3,), m.n) if mode == 'full' else [src.one('f', (3,))]
-            arg = to_arg(rel, 'f', (3,), bool(op['aslist']))
+            arg = self.to_arg(rel, 'f', (3,), op['aslist'])
             s.atoms_prop(key=name, value=arg, scale=True)
             if name not in m.schema:
                 m.set_all(name, [(0.0, 0.0, 0.0)] * m.n)
@@ -475,10 +567,10 @@ class Run:
         else:
             if form == 'int' or op['vmode'] == 'one':
                 rel = [src.one('f', (3,))]
-                arg = one_arg(rel[0], 'f', (3,), bool(op['aslist']))
+                arg = self.one_arg(rel[0], 'f', (3,), op['aslist'])
             else:
                 rel = src.many('f', (3,), len(sel))
-                arg = to_arg(rel, 'f', (3,), bool(op['aslist']))
+                arg = self.to_arg(rel, 'f', (3,), op['aslist'])
             s.atoms_prop(key=name, index=idx, value=arg, scale=True)
             exp = [self.r2c(r) for r in rel]
             if len(exp) == 1 and len(sel) != 1:
@@ -629,7 +721,7 @@ class Run:
             self.labels.add('ext:int')
         else:
             names = [nm for j, nm in enumerate(POOLNAMES) if (op['pbits'] >> j) & 1]
-            other, orows, oschema = self.build_atoms(n_other, names, src, bool(op['aslist']))
+            other, orows, oschema = self.build_atoms(n_other, names, src, op['aslist'])
             value = other
             mine, theirs = set(m.schema) - {'atype', 'pos'}, set(names)
             self.labels.add('ext:equal' if mine == theirs else 'ext:subset' if theirs < mine else
@@ -727,7 +819,7 @@ class Run:
         src = M.Src(op['vals'], tmax=op['tmax'])
         count = 1 if (form == 'int' or op['vmode'] == 'one' or not sel) else len(sel)
         names = [x for x in m.schema if x not in ('atype', 'pos')]
-        value, vrows, vschema = self.build_atoms(count, names, src, bool(op['aslist']), reverse=bool(op['reverse']))
+        value, vrows, vschema = self.build_atoms(count, names, src, op['aslist'], reverse=bool(op['reverse']))
         vsnap = [dict(r) for r in vrows]
         scaled = via == 'sysprop_scaled'
         if scaled:
@@ -794,20 +886,20 @@ class Run:
         src = M.Src(op['vals'])
         na = m.natypes_atoms()
         mode = op['mode']
-        aslist = bool(op['aslist'])
+        aslist = op['aslist']
         if mode == 'all':
             vals = src.many(kind, tshape, na)
-            atoms.prop_atype(name, to_arg(vals, kind, tshape, aslist))
+            atoms.prop_atype(name, self.to_arg(vals, kind, tshape, aslist))
             m.set_all(name, [vals[r['atype'] - 1] for r in m.rows])
         elif mode == 'short':
             vals = src.many(kind, tshape, na - 1)
-            self.refusal(lambda: atoms.prop_atype(name, to_arg(vals, kind, tshape, aslist)), ValueError,
+            self.refusal(lambda: atoms.prop_atype(name, self.to_arg(vals, kind, tshape, aslist)), ValueError,
                          'length of value less than natypes', 'prop_atype with %d values for %d types' % (na - 1, na))
             return
         elif mode == 'absent':
             t = na + 1 + op['t'] % 3
             v = src.one(kind, tshape)
-            self.refusal(lambda: atoms.prop_atype(name, one_arg(v, kind, tshape, aslist, new=new), atype=t), ValueError,
+            self.refusal(lambda: atoms.prop_atype(name, self.one_arg(v, kind, tshape, aslist, new=new), atype=t), ValueError,
                          'atype not found', 'prop_atype(atype=%d) with %d types' % (t, na))
             return
         else:
@@ -818,7 +910,7 @@ class Run:
             if op['nptype']:
                 t = np.int64(t)
             v = src.one(kind, tshape)
-            atoms.prop_atype(name, one_arg(v, kind, tshape, aslist, new=new), atype=t)
+            atoms.prop_atype(name, self.one_arg(v, kind, tshape, aslist, new=new), atype=t)
             if new:
                 m.set_all(name, [M.default_value(kind, tshape)] * m.n)
                 self.labels.add('ptype_one_newkey')
@@ -896,7 +988,7 @@ class Run:
             L = n + 1 + op['a'] % 2 if (op['a'] % 3 or n <= 2) else n - 1     # never 1, never natoms
             if L in (1, n):
                 L = n + 1
-            arg = to_arg(src.many(kind, tshape, L), kind, tshape, bool(op['aslist']))
+            arg = self.to_arg(src.many(kind, tshape, L), kind, tshape, op['aslist'])
             route = op['a'] % 3
             fn = ((lambda: setattr(atoms, name, arg)) if route == 0 else (lambda: atoms.view.__setitem__(name, arg)) if route == 1
                   else (lambda: atoms.prop(key=name, value=arg)))
